@@ -107,8 +107,10 @@ def write_if_changed(path, text):
     except OSError:
         pass
     os.makedirs(os.path.dirname(path), exist_ok=True)
-    with open(path, "w") as f:
+    tmp = "%s.tmp%d" % (path, os.getpid())      # atomic: other checks may be compiling this file right now
+    with open(tmp, "w") as f:
         f.write(text)
+    os.replace(tmp, path)
     return True
 
 
